@@ -355,6 +355,24 @@ def body_free(c, ctx):
                     break
             if ctx.failures:
                 break
+        # test functions on a scaled copy of the mesh (same topology, other integration measure): the measure is the trial basis'
+        from skfem import CellBasis
+        vb_s = CellBasis(m.scaled(tuple([2.0] + [1.0] * (m.dim() - 1))), type(vb.elem)(), intorder=2)
+        if vb_s is not None and vb_s.dx.shape == ub.dx.shape:
+            As0 = BilinearForm(form).assemble(ub, vb_s, c=param)
+            for nth in (1, 3):
+                As = BilinearForm(form, nthreads=nth).assemble(ub, vb_s, c=param)
+                if (As != As0).nnz:
+                    ctx.fail('free_running_differs', f'{c} nthreads={nth}: test basis on a scaled copy of the mesh', rect=ub.Nbfun != vb.Nbfun)
+                    break
+        # results stay what they were when the same threaded form object is used again
+        Fk = BilinearForm(form, nthreads=2)
+        E1 = Fk.elemental(ub, vb, c=param)
+        snap = E1.toarray().copy()
+        Fk.elemental(ub, vb, c=2.0 * param + 1.0)
+        if not np.array_equal(E1.toarray(), snap):
+            ctx.fail('earlier_result_changed', f'{c}: elemental data returned by a threaded form changed when the form was used again',
+                     rect=ub.Nbfun != vb.Nbfun)
         # ONE threaded form object used for several assemblies in a row, as asm() over lists of bases does: trial and test
         # spaces exchanged (same number of local pairs, other local shape), and back
         A0T = serial(vb, ub, param)
